@@ -100,15 +100,59 @@ def config(ctx) -> None:
                           f"the base constructor receives {attr}=`{show(v)[:50] if v is not None else 'its default'}` instead of the {attr} the user gave to {dev.name}", where=f.where(call))
 
 
+class _Cand:
+    """The statement that defines the list of per-well step lists (comprehension form or `L = []` of the loop form)."""
+
+    def __init__(self, node, name, it, var, alts, filtered, at):
+        self.ast, self.id = node.ast, node.id
+        self.name, self.iter, self.var, self.alts, self.filtered, self.at = name, it, var, alts, filtered, at
+
+
 def _vol_lists(ctx, dev, rule):
+    """(transfer structure, [candidate definitions of the per-well step lists])
+    comprehension:  L = [<elt> for v in vols]          loop:  L = [];  for v in vols: ... L.append(<elt>)"""
     from .c07 import transfer_structure
 
     t = transfer_structure(ctx, dev, rule)
     fv = t.fv
     gbody = fv.cfg.loop_body[t.G]
-    cands = [n for n in (fv.cfg.nodes[i] for i in gbody) if n.kind == "stmt" and isinstance(n.ast, ast.Assign) and isinstance(n.ast.value, ast.ListComp)
-             and any(isinstance(s, ast.Call) and call_fname(s) == "partition_volume" for s in ast.walk(n.ast.value))]
-    return t, cands
+    out = []
+    for n in (fv.cfg.nodes[i] for i in sorted(gbody)):
+        if not (n.kind == "stmt" and isinstance(n.ast, ast.Assign) and len(n.ast.targets) == 1 and isinstance(n.ast.targets[0], ast.Name)):
+            continue
+        name = n.ast.targets[0].id
+        v = n.ast.value
+        if isinstance(v, ast.ListComp) and any(isinstance(s_, ast.Call) and call_fname(s_) == "partition_volume" for s_ in ast.walk(v)) and len(v.generators) == 1:
+            g = v.generators[0]
+            var = g.target.id if isinstance(g.target, ast.Name) else None
+            alts = []
+            if isinstance(v.elt, ast.IfExp):
+                alts = [([(v.elt.test, True)], v.elt.body), ([(v.elt.test, False)], v.elt.orelse)]
+            else:
+                alts = [([], v.elt)]
+            out.append(_Cand(n, name, g.iter, var, alts, bool(g.ifs), n.id))
+        elif (isinstance(v, ast.List) and not v.elts) or (isinstance(v, ast.Call) and call_fname(v) == "list" and not v.args):
+            apps = [cs for cs in fv.calls() if cs.node in gbody and isinstance(cs.call.func, ast.Attribute) and cs.call.func.attr == "append" and is_name(cs.call.func.value, name) and len(cs.call.args) == 1]
+            if not apps or not any(isinstance(s_, ast.Call) and call_fname(s_) == "partition_volume" for cs in apps for s_ in ast.walk(cs.call.args[0])):
+                continue
+            loops = {tuple(fv.cfg.enclosing_loops(cs.node)) for cs in apps}
+            if len(loops) != 1:
+                continue
+            chain = list(loops.pop())
+            if len(chain) != 2 or chain[0] != t.G or fv.cfg.nodes[chain[1]].kind != "for" or chain[1] in (t.P, t.Z):
+                continue
+            lp = fv.cfg.nodes[chain[1]]
+            var = lp.ast.target.id if isinstance(lp.ast.target, ast.Name) else None
+            lbody = fv.cfg.loop_body[lp.id]
+            alts = []
+            for cs in apps:
+                conds = [(fv.cfg.nodes[d].ast, pol) for d, pol in fv.controlling(cs.node, within=lbody, skip_raising=True)]
+                alts.append((conds, cs.call.args[0]))
+            jumps = [m for m in (fv.cfg.nodes[i] for i in lbody) if m.kind == "stmt" and isinstance(m.ast, (ast.Break, ast.Continue, ast.Return))]
+            # exactly one append per iteration: the append conditions are the two outcomes of one test, or a single unconditional append
+            once = (len(alts) == 1 and not alts[0][0]) or (len(alts) == 2 and len(alts[0][0]) == 1 and len(alts[1][0]) == 1 and alts[0][0][0][0] is alts[1][0][0][0] and alts[0][0][0][1] != alts[1][0][0][1])
+            out.append(_Cand(n, name, lp.ast.iter, var, alts, bool(jumps) or not once, lp.id))
+    return t, out
 
 
 def wiring(ctx, dev) -> None:
@@ -119,40 +163,48 @@ def wiring(ctx, dev) -> None:
     if len(cands) != 1:
         ctx.rep.check(None if not cands else False, rule, cb + "/vol-lists", "", f"expected one list of per-well volume lists built with partition_volume, found {len(cands)}", where=f.where())
         return
-    n = cands[0]
-    lc = n.ast.value
-    w = f.where(n.ast)
+    cd = cands[0]
+    w = f.where(cd.ast)
     selfn = f.params[0]
-    g = lc.generators[0]
-    it = fv.res.resolve(g.iter, n.id)
-    ok_it = is_sym(it, "item") and isinstance(it.args[1], ast.Constant) and it.args[1].value == 2 and not g.ifs and len(lc.generators) == 1
+    it = fv.res.resolve(cd.iter, cd.at)
+    ok_it = is_sym(it, "item") and isinstance(it.args[1], ast.Constant) and it.args[1].value == 2 and not cd.filtered
     ctx.rep.check(ok_it, rule, cb + "/over-volumes", "one list per volume of the column group (component 2), none filtered",
                   f"the per-well lists are built over `{show(it)[:60]}` (filtered or not the group's volumes)", where=w)
-    elt = lc.elt
-    var = g.target.id if isinstance(g.target, ast.Name) else None
+    var = cd.var
     ok = False
-    detail = f"element is `{show(elt)[:80]}`"
-    if isinstance(elt, ast.IfExp):
-        test, a, b = elt.test, elt.body, elt.orelse
+    detail = f"element is `{show(cd.alts[0][1])[:80]}`" if cd.alts else "no element"
+    split = plain = None
+    bad_test = None
+    for conds, elt in cd.alts:
+        if len(conds) != 1:
+            bad_test = conds
+            continue
+        test, pol = conds[0]
         neg = isinstance(test, ast.UnaryOp) and isinstance(test.op, ast.Not)
         core = test.operand if neg else test
-        if attr_of_name(core, selfn, "auto_split"):
-            split, plain = (b, a) if neg else (a, b)
-            ok_plain = isinstance(plain, ast.List) and len(plain.elts) == 1 and is_name(plain.elts[0], var)
-            ok_split = False
-            if isinstance(split, ast.Call) and call_fname(split) == "partition_volume":
-                arg0 = split.args[0] if split.args else None
-                while isinstance(arg0, ast.Call) and call_fname(arg0) == "float" and arg0.args:
-                    arg0 = arg0.args[0]
-                mv = [k.value for k in split.keywords if k.arg == "max_volume"]
-                ok_split = is_name(arg0, var) and len(mv) == 1 and attr_of_name(mv[0], selfn, "max_volume")
-                if not ok_split:
-                    detail = f"partition_volume is called as `{show(split)[:70]}`; expected partition_volume(<the volume>, max_volume=self.max_volume)"
-            if not ok_plain:
-                detail = f"without auto_split the step list is `{show(plain)[:40]}`; expected the single requested volume"
-            ok = ok_plain and ok_split
+        if not attr_of_name(core, selfn, "auto_split"):
+            bad_test = [(test, pol)]
+            continue
+        if pol != neg:
+            split = elt
         else:
-            detail = f"splitting is decided by `{show(test)[:50]}` instead of self.auto_split"
+            plain = elt
+    if bad_test is not None and bad_test:
+        detail = f"splitting is decided by `{show(bad_test[0][0])[:50]}` instead of self.auto_split"
+    elif split is not None and plain is not None:
+        ok_plain = isinstance(plain, ast.List) and len(plain.elts) == 1 and is_name(plain.elts[0], var)
+        ok_split = False
+        if isinstance(split, ast.Call) and call_fname(split) == "partition_volume":
+            arg0 = split.args[0] if split.args else None
+            while isinstance(arg0, ast.Call) and call_fname(arg0) == "float" and arg0.args:
+                arg0 = arg0.args[0]
+            mv = [k.value for k in split.keywords if k.arg == "max_volume"]
+            ok_split = is_name(arg0, var) and len(mv) == 1 and attr_of_name(mv[0], selfn, "max_volume")
+            if not ok_split:
+                detail = f"partition_volume is called as `{show(split)[:70]}`; expected partition_volume(<the volume>, max_volume=self.max_volume)"
+        if not ok_plain:
+            detail = f"without auto_split the step list is `{show(plain)[:40]}`; expected the single requested volume"
+        ok = ok_plain and ok_split
     ctx.rep.check(ok, rule, cb + "/auto-split", "auto_split ? partition_volume(v, max_volume=self.max_volume) : [v]", detail, where=w)
 
 
@@ -164,7 +216,7 @@ def iteration_space(ctx, dev) -> None:
     if len(cands) != 1:
         ctx.rep.inconclusive(rule, cb, "list of per-well volume lists not found")
         return
-    L = cands[0].ast.targets[0].id if isinstance(cands[0].ast.targets[0], ast.Name) else None
+    L = cands[0].name
     P, Z = fv.cfg.nodes[t.P], fv.cfg.nodes[t.Z]
     w = f.where(P.ast)
     # outer: range(max(len(l) for l in L))
